@@ -858,8 +858,16 @@ func cmdCheck(prop, tier string) int {
 		path := filepath.Join(verif, "replays", fmt.Sprintf("%s-%s-%x.json", rf.Property, sanitize(rf.Rule), h[:5]))
 		b, _ := json.MarshalIndent(rf, "", " ")
 		os.WriteFile(path, b, 0o644)
-		fmt.Printf("VIOLATION property=%s replay=%s\n", rf.Property, path)
-		fmt.Printf("  rule=%s scenario=%s seed=%d run=%d step=%d: %s\n", rf.Rule, rf.Scenario, rf.Seed, rf.Run, rf.Step, rf.Message)
+		// a scenario shared between checks reports under the property its
+		// oracle was written for; the line names the property being checked and
+		// says which oracle fired
+		if rf.Property != prop {
+			fmt.Printf("VIOLATION property=%s replay=%s\n", prop, path)
+			fmt.Printf("  (oracle of %s) rule=%s scenario=%s seed=%d run=%d step=%d: %s\n", rf.Property, rf.Rule, rf.Scenario, rf.Seed, rf.Run, rf.Step, rf.Message)
+		} else {
+			fmt.Printf("VIOLATION property=%s replay=%s\n", rf.Property, path)
+			fmt.Printf("  rule=%s scenario=%s seed=%d run=%d step=%d: %s\n", rf.Rule, rf.Scenario, rf.Seed, rf.Run, rf.Step, rf.Message)
+		}
 		reported++
 		exit = 1
 	}
